@@ -27,6 +27,29 @@ CLAIMED = {
          'by correspondence; Char.utf8Size as the octet count; python -O (assert stripped) not modelled; '
          'lines_roundtrip covers Contentlines.to_ical/from_ical for lines that start with a name character.',
          'DESIGN.md 6/C06'),
+ 'C08': ('Lean 4 proof (induction over the quote-aware scanner) over translated character classes + differential correspondence',
+         'Theorems for every parameter map in the stated domain (any number of parameters, list and string lengths): '
+         'Parameters.from_ical(Parameters.to_ical(m)) = canon m (upper-cased sorted keys, values and their order kept, a '
+         'single string with a comma stays a single string); every value containing , ; : is emitted in double quotes; '
+         'q_split inverts any quote-balanced join. QUOTABLE/UNSAFE/QUNSAFE classes and the dquote substitution are '
+         'regenerated from parser.py every run. The in-line and on-a-component routes are tied by correspondence and '
+         'decided by the oracle; there the recorded finding param-escape-hazard (backslash before , : ; \\ and literal '
+         '%2C-style codes in parameter values) applies.',
+         'Trusted: Lean kernel; tools/extract.py; hand models of q_split, dquote, Parameters.from_ical/to_ical tied by '
+         'correspondence (all strings <= 5 over {" , ; = a}, all values <= 3 over a 14-character alphabet); ASCII names '
+         '(Python \\w and str.upper are Unicode-aware: non-ASCII names / strict-mode values are skipped as unmodelled).',
+         'DESIGN.md 6/C08'),
+ 'C17': ('Lean 4 proof (invariant + refinement by induction over operation lists) + differential correspondence',
+         'Theorems for every operation history: the key invariant (distinct, upper-cased keys) holds in every reachable '
+         'state; every step returns what an ordered dict keyed by the folded name returns and leaves the same store, '
+         'first-insertion order included (refinement), outside the one recorded finding (pop of an absent name returns '
+         'None); equality with any mapping of the same folded content in any order and case; canonsort = priority names '
+         'in declared order then the rest sorted, invariant under permutation of the keys. upper is abstract with the '
+         'single law upper(upper k) = upper k, checked for every code point of the running interpreter.',
+         'Trusted: Lean kernel; hand model of every CaselessDict method (overridden and inherited) tied by correspondence '
+         'against live CaselessDict, Parameters and Component objects (all sequences <= 2, sampled 3, random 30-step); '
+         'str.upper idempotence (checked exhaustively each run).',
+         'DESIGN.md 6/C17'),
 }
 
 PENDING = 'check not built yet in this session; design in DESIGN.md section 6 (work in progress, not a claim)'
